@@ -260,7 +260,7 @@ PROPS = {
     ),
     "C19": dict(
         modules=["GeomVerif.Properties.C19", "GeomVerif.Model.Calendar"],
-        n_quick=10000, n_thorough=200000, thorough_seeds=4, min_theorems=6,
+        n_quick=10000, n_thorough=200000, thorough_seeds=4, min_theorems=9,
         rule="decode: synthetic IGC documents (A record present/absent, BOM/XOFF/other noise before it, CR LF or LF, HFDTE and other H records, "
              "valid and forged I extension tables (wrong start, stop before start, descending/overlapping, truncated), B records valid, truncated, "
              "over-long, shorter than the extensions require, one character corrupted), 1/6 with random byte mutations, 5% pure random bytes. "
